@@ -48,15 +48,22 @@ package drpcmanager
 //@   ensures [C05.terminated] mTerm(m)
 
 // acquireSemaphore: once the manager is terminated every call fails.
+// The stream semaphore is held on return exactly when the call succeeded: a caller whose context is
+// cancelled while waiting for the previous stream gives it back.
 //@ func (*Manager).acquireSemaphore
-//@   props C05 C07 C12
+//@   props C05 C07 C12 C04
 //@   requires ctx != nil
 //@   assumes "the manager's term signal is only ever set with a non-nil error (asserted at the Set call site in terminate: [nonnil-set])"
 //@   ghost entry sawTerm = false
 //@   ghost after:(*Signal).Get#1 sawTerm = ret1
 //@   site (*Signal).Get#1 assumeafter [nonnil] ret1 ==> ret0 != nil
+//@   assumes "ctx.Err() is non-nil once ctx.Done() is closed (context package contract)"
+//@   site Err#2 assumeafter [ctx-err] ret != nil
+//@   site (*Signal).Err assumeafter [nonnil] ret != nil
 //@   check [C05.fails-after-term] sawTerm ==> result != nil
 //@   check [C05.monotone]         old(mTerm(m)) ==> sawTerm
+//@   check [C04.sem-released-on-error] result != nil ==> eventCount("select-send") == eventCount("call:(*Chan).Recv")
+//@   check [C04.sem-held-on-success]   result == nil ==> eventCount("select-send") == 1 && eventCount("call:(*Chan).Recv") == 0
 
 //@ func (*Manager).waitForPreviousStream
 //@   props C07 C02
@@ -69,12 +76,15 @@ package drpcmanager
 // manageReader: a packet is handed only to the stream with the same id; packets of lower stream ids
 // are dropped; every exit either saw the manager terminated or terminated it.
 //@ func (*Manager).manageReader
-//@   props C02 C05 C12 C13
+//@   props C02 C05 C12 C13 C01 C11
 //@   requires m.rd != nil && m.tr != nil && readerInv(m.rd)
 //@   modifies *
 //@   loop 1 invariant [m] m == m0 && m.rd != nil && m.tr != nil && readerInv(m.rd) && (arr(pkt.Data) == 0 || (arr(pkt.Data) != arr(m.rd.buf) && arr(pkt.Data) != arr(m.rd.curr)))
 //@   loop 2 invariant [m] m == m0 && m.rd != nil && m.tr != nil && readerInv(m.rd) && (arr(pkt.Data) == 0 || (arr(pkt.Data) != arr(m.rd.buf) && arr(pkt.Data) != arr(m.rd.curr)))
 //@   site (*Stream).HandlePacket assert [C02.dispatch] arg0 != nil && arg1.ID.Stream == arg0.id.Stream
+//@   ghost after:(*Reader).ReadPacketUsing rpkt = ret0
+//@   site (*Stream).HandlePacket assert [C01.packet-intact] sameSlice(arg1.Data, rpkt.Data) && arg1.ID == rpkt.ID && arg1.Kind == rpkt.Kind && arg1.Control == rpkt.Control
+//@   site send:pkts assert [C01.packet-intact] sameSlice(arg0.Data, rpkt.Data) && arg0.ID == rpkt.ID && arg0.Kind == rpkt.Kind && arg0.Control == rpkt.Control
 //@   site (*Stream).Cancel assert [C02.cancel-current] arg0 != nil && arg1 != nil
 //@   site (*Manager).terminate assert [C05.nonnil] arg1 != nil
 
@@ -90,6 +100,7 @@ package drpcmanager
 //@   ghost entry prevID = 0
 //@   ghost after:(*Stream).ID#1 prevID = ret
 //@   site (*Manager).newStream assert [C02.next-id] arg2 == prevID + 1
+//@   ensures [stream] err == nil ==> stream != nil && stream.wr == m.wr
 
 //@ func isConnectionReset
 //@   props C13
@@ -105,19 +116,31 @@ package drpcmanager
 
 // NewServerStream: metadata is attached only when it arrived, in this very call, on the stream id of
 // the invoke that follows it; the stream is created with the invoke's id.
+// Every packet taken from the reader is acknowledged (pdone) on every path, error paths included:
+// the reader goroutine waits for that acknowledgement without a way out, and Close waits for the reader.
 //@ func (*Manager).NewServerStream
-//@   props C11 C02 C13 C05
+//@   props C11 C02 C13 C05 C04 C12
 //@   requires ctx != nil && m.wr != nil
 //@   modifies *
 //@   ghost entry gotMeta = false
+//@   ghost entry metaSid = 0
 //@   ghost after:Decode gotMeta = true
-//@   loop 1 invariant [m] m == m0 && m.wr != nil && (!gotMeta ==> metaID == 0 && meta == nil)
-//@   site AddPairs assert [C11.scope] (gotMeta || meta == nil) && arg1 == meta && eventCount("call:AddPairs") == 0
+//@   ghost after:Decode metaSid = pkt.ID.Stream
+//@   loop 1 invariant [m] m == m0 && m.wr != nil && (!gotMeta ==> metaID == 0 && meta == nil) && (gotMeta ==> metaID == metaSid)
+//@   site AddPairs assert [C11.scope] arg1 == meta && eventCount("call:AddPairs") == 0 && (meta != nil ==> gotMeta && metaSid == pkt.ID.Stream)
 //@   site (*Manager).newStream assert [C02.invoke-id] eventCount("call:(*Manager).newStream") == 0
+//@   ghost entry actx = nil
+//@   ghost after:AddPairs actx = ret
+//@   site (*Manager).newStream assert [C11.attached] (gotMeta && metaSid == arg2) ==> eventCount("call:AddPairs") == 1 && arg1 == actx
 //@   assumes "ctx.Err() is non-nil once ctx.Done() is closed (context package contract); the manager's term signal is only ever set with a non-nil error ([nonnil-set] in terminate)"
 //@   site Err#1 assumeafter [ctx-err] ret != nil
 //@   site (*Signal).Err assumeafter [nonnil] ret != nil
 //@   ensures [stream] err == nil ==> stream != nil && stream.wr == m.wr
+//@   check       [C12.packet-acked] eventCount("select:3") == eventCount("call:(*Chan).Send")
+//@   loop 1 step [C12.packet-acked] eventCount("select:3") == eventCount("call:(*Chan).Send")
+//@   ghost entry acq = false
+//@   ghost after:(*Manager).acquireSemaphore acq = ret == nil
+//@   check [C04.sem-released-on-error] (acq && err != nil ==> eventCount("call:(*Chan).Recv") == 1) && (err == nil ==> eventCount("call:(*Chan).Recv") == 0)
 
 //@ func (*Manager).manageStreams
 //@   props C12
@@ -153,6 +176,7 @@ package drpcmanager
 //@   check [C04.soft-busy]     eventCount("select:2") == 1 && old(m.opts.SoftCancel) && (busy || scerr != nil) ==> eventCount("call:(*Manager).terminate") == 1
 //@   check [C04.hard-unfinished] eventCount("select:2") == 1 && !old(m.opts.SoftCancel) && !cret ==> eventCount("call:(*Manager).terminate") == 1
 //@   check [C04.hard-no-packet] !old(m.opts.SoftCancel) ==> eventCount("call:(*Stream).SendCancel") == 0
+//@   check [C04.sem-released-once] eventCount("call:(*Chan).Recv") == 1
 
 // NewWithOptions starts exactly the two goroutines (reader and stream manager) that Close waits for.
 //@ func NewWithOptions
